@@ -53,6 +53,7 @@ func (t Ty) Go() string {
 	}
 	return "?"
 }
+
 // Conv is the conversion function name goose recognises
 func (t Ty) Conv() string {
 	if t.K == "u8" {
@@ -105,16 +106,16 @@ type Options struct {
 }
 
 type gen struct {
-	r       *rand.Rand
-	o       Options
-	structs []StructDef
-	funcs   []FuncSig
-	consts  []Var // package-level constants (u64/u32/u8/bool/str)
-	sb      strings.Builder
-	nname   int
-	keys    map[string]bool
-	fkeys   map[string]map[string]bool // function -> keys
-	cur     string
+	r           *rand.Rand
+	o           Options
+	structs     []StructDef
+	funcs       []FuncSig
+	consts      []Var // package-level constants (u64/u32/u8/bool/str)
+	sb          strings.Builder
+	nname       int
+	keys        map[string]bool
+	fkeys       map[string]map[string]bool // function -> keys
+	cur         string
 	usesMachine bool
 	loopDepth   int
 	scopeNow    *scope // scope of the expression being generated (for shadowing checks)
@@ -129,7 +130,7 @@ func (g *gen) key(k string) {
 		g.fkeys[g.cur][k] = true
 	}
 }
-func (g *gen) masked(k string) bool { return g.o.MaskKeys[k] }
+func (g *gen) masked(k string) bool  { return g.o.MaskKeys[k] }
 func (g *gen) fresh(p string) string { g.nname++; return fmt.Sprintf("%s%d", p, g.nname) }
 func (g *gen) pick(n int) int        { return g.r.IntN(n) }
 func (g *gen) chance(p int) bool     { return g.r.IntN(100) < p }
